@@ -26,4 +26,4 @@ def run(ctx, rep):
     _m6b.rule_snode_boundary(mod, rep)
     from ..rules import more3 as _m3
     _m3.rule_prune_guard(mod, rep)
-    _m6b.rule_etree_scan(mod, rep, names=("sp_symetree",))
+    _m6b.rule_etree_scan(mod, rep, names=("sp_symetree",), floor=2)
